@@ -395,7 +395,7 @@ Definition oracle_step (BHT : Z) (t : Track) (op : Op) (out : list Z) : option T
           else
             (* a probe of size r was issued *)
             if t_enabled t && (t_infl t =? -1) && (f =? pn)
-               && ((t_mc t =? 0) || ((t_cur t <=? r) && ((t_mc t <? 3) || (t_cur t <? r))))
+               && (if t_mc t <? 2 then true else if t_mc t <? 3 then t_cur t <=? r else t_cur t <? r)
                && ((r <=? Z.min (t_upper t) (t_peer t)) || ((t_mc t =? 0) && (r <=? t_cur t)))
             then Some (mkTrack c f (t_min t) (t_peer t) (t_upper t) (t_mc t) (t_enabled t) r
                                (t_burst t) (t_nbursts t) (t_plow t))
